@@ -6,6 +6,7 @@ cipher (`cryptography`) is called directly by the harness as well, so three part
 encrypted case: cardutil, cryptography called without cardutil, the reference; known-answer vectors tie the
 reference and cryptography to the published standards on every run.  This module also exports the reference
 ciphers and the known-answer cases to props/c14.py."""
+import os
 import functools
 from util import hb, hs, outcome
 
@@ -750,6 +751,28 @@ def impl(case):
         try:
             a, b = cls(case['pin']), cls(case['pin'])
             r = {'blocks': [hb(a.to_bytes()), hb(a.to_bytes()), hb(b.to_bytes())], 'pin': hs(cls.from_bytes(a.to_bytes()).pin)}
+            # processes forked from this one (a pre-forking server): each builds a block of its own
+            forked = []
+            for _ in range(2):
+                rd, wr = os.pipe()
+                pid = os.fork()
+                if pid == 0:
+                    try:
+                        os.close(rd)
+                        os.write(wr, cls(case['pin']).to_bytes().hex().encode('ascii'))
+                    finally:
+                        os._exit(0)
+                os.close(wr)
+                data = b''
+                while True:
+                    chunk = os.read(rd, 4096)
+                    if not chunk:
+                        break
+                    data += chunk
+                os.close(rd)
+                os.waitpid(pid, 0)
+                forked.append(data.decode('ascii'))
+            r['forked'] = forked
         except Exception as ex:
             r = {'err': '%s: %s' % (type(ex).__name__, ex)}
         return r
@@ -1008,6 +1031,10 @@ def judge(case, io, mo):
                 bad('f4-block-changes-between-calls', 'to_bytes() twice on one object: %s then %s' % tuple(io['blocks'][:2]))
             elif bl[0][8:] == bl[2][8:]:
                 bad('f4-fill-not-fresh', 'two blocks built without a supplied fill carry the same 64 random bits %s' % bl[0][8:].hex())
+            else:
+                fills = [b[8:].hex() for b in (bl[0], bl[2])] + [x[16:] for x in io.get('forked', []) if len(x) == 32]
+                if len(set(fills)) != len(fills):
+                    bad('f4-fill-not-fresh-across-processes', 'blocks built in this process and in processes forked from it share random bits: %s' % fills)
             if io['pin'] != hs(case['pin']):
                 bad('f4-rebuilt-pin-differs', 'PIN rebuilt from the block bytes differs')
             model('to0', 'OK ' + io['blocks'][1], 'pin4_to')
